@@ -6,16 +6,6 @@ From GV Require Import Base.Prelude Base.PyStr Model.Bins Model.DB Model.Parser 
   Proofs.C03Proofs.
 Open Scope Z_scope.
 
-Definition mk_derived (ft : str) (a : attrs) (x : Z * Z * str * str) : row :=
-  let '(s, e, strand, seqid) := x in mkRow [] seqid DERIVED ft (Some s) (Some e) DOTs strand DOTs a [] None.
-Definition t_row (g : gtfcfg) (t gn : str) (x : Z * Z * str * str) : row :=
-  mk_derived TRANSCRIPT [(g_tkey g, [t]); (g_gkey g, [gn])] x.
-Definition g_row (g : gtfcfg) (gn : str) (x : Z * Z * str * str) : row := mk_derived GENE [(g_gkey g, [gn])] x.
-
-(* the key a derived row is stored under *)
-Definition did (g : gtfcfg) (d : row) : str :=
-  match first_val (if str_eqb (r_ftype d) GENE then g_gkey g else g_tkey g) d with Some v => v | None => [] end.
-
 Definition d_tr (g : gtfcfg) (st : ist) (t gn : str) : result (list row) :=
   if g_no_transcripts g then Ok []
   else match extent g st t with Some x => Ok [t_row g t gn x] | None => Err EValue end.
@@ -141,7 +131,6 @@ Section End2End.
       + apply Hnew. left. reflexivity.
   Qed.
 
-  Definition appended (g : gtfcfg) (ds : list row) : list row := map (fun d => set_bin (set_id (did g d) d)) ds.
 
   Theorem l_gtf_inference g force st ds :
     is_field_form (g_tkey g) = false -> is_field_form (g_gkey g) = false -> str_eqb (g_gkey g) (g_tkey g) = false ->
